@@ -25,6 +25,17 @@ PROPS = {
         ],
         "must_observe": ["judged:sentence", "judged:model-accept", "judged:model-reject"],
         "needs_hooks": True,
+        "technique": "runtime monitoring: reference-model monitor (independent recogniser) + "
+                     "derivation-directed oracle over generated definitions x vectors; ledger "
+                     "invariant hook",
+        "level_text": "Held on the executions observed: tens of thousands (quick) to millions "
+                      "(thorough) of run_inner calls on generated conventional definitions, each "
+                      "judged by an executable model of the documented grammar and, for "
+                      "sentences, by the value the derivation denotes. Exploration, not proof: "
+                      "shapes the generator cannot produce are not covered.",
+        "level_note": "Trusted: the harness's reference recogniser and derivation generator "
+                      "(cross-checked against each other on every sentence; disagreement is "
+                      "inconclusive, not a verdict), rustc, std.",
     },
     "C04": {
         "cases": {"quick": 640, "thorough": 40000},
@@ -43,5 +54,15 @@ PROPS = {
         "must_observe": ["mode:parse", "mode:complete-rev9", "mode:manpage", "purity_reruns"],
         "needs_hooks": True,
         "death_is_violation": True,
+        "technique": "runtime monitoring: catch_unwind + overflow/debug-assertion instrumentation "
+                     "+ fuel hook (logical step counter) + repeated-run purity oracle over "
+                     "byte-noise workloads in every mode",
+        "level_text": "Held on the executions observed: every (definition, vector, mode) triple "
+                      "returned normally within the step budget and gave the same outcome on "
+                      "four runs. A shard process that dies is attributed to the case it was "
+                      "running and reported as a violation.",
+        "level_note": "Trusted: the fuel budget is 3-4 orders of magnitude above what terminating "
+                      "runs use (maximum observed is in the evidence); purity is compared on "
+                      "normalised outcomes (value, monochrome text).",
     },
 }
